@@ -22,7 +22,7 @@ func profRelay() *Profile {
 
 func relayCheck(t *testing.T, id string, prof func() *Profile, rule string, floor func(n int) int, req func(run *ev.Run)) {
 	run := ev.Start(id)
-	nHist, nOps := run.Pick(10, 150), run.Pick(700, 2000)
+	nHist, nOps := run.Pick(10, 100), run.Pick(700, 2000)
 	for h := 0; h < nHist; h++ {
 		var rm *RelayMon
 		s := History(t, run, prof(), h, nOps, func(hid string) []Monitor {
